@@ -38,16 +38,19 @@ class Masked:
     """A[mask] for a boolean mask array: kept symbolic (a compaction of unknown length)."""
     _n = [0]
 
+    _masks = {}
+
     def __init__(s, arr, mask):
         s.arr = arr; s.mask = mask
         Masked._n[0] += 1
         s.ident = Masked._n[0]
-        KIND.setdefault(f"count(mask#{s.ident})", "nat")
+        s.mid = mask_id(mask)
+        KIND.setdefault(f"count(mask#{s.mid})", "nat")
 
     @property
     def ndim(s): return 1
 
-    def count(s): return X.var(f"count(mask#{s.ident})")
+    def count(s): return X.var(f"count(mask#{s.mid})")
 
     def as_arr(s):
         v = fresh("c")
@@ -55,6 +58,28 @@ class Masked:
         return Arr([(v, s.count())], mk_idx(f"compact#{s.ident}", [X.var(v)]))
 
     def __repr__(s): return f"Masked({s.arr!r})"
+
+
+def mask_id(mask):
+    """one id per boolean mask array (by object, and by structure for array expressions): arrays compacted with the same
+    mask have the same length."""
+    try: k = ("k", repr(vkey(mask)))
+    except Exception: k = ("id", id(mask))
+    if k not in Masked._masks: Masked._masks[k] = len(Masked._masks) + 1
+    return Masked._masks[k]
+
+
+def mask_count(mask):
+    mid = mask_id(mask)
+    KIND.setdefault(f"count(mask#{mid})", "nat")
+    return X.var(f"count(mask#{mid})")
+
+
+class MaskIdx:
+    """np.flatnonzero(mask): the ascending positions where a boolean mask holds."""
+
+    def __init__(s, mask): s.mask = mask
+    def __repr__(s): return "flatnonzero(mask)"
 
 
 class GuardedQuot:
@@ -724,6 +749,16 @@ def list_comp(interp, n, st):
                 elif t is not True: return Opaque("symbolic comprehension filter")
             if keep: out.append(interp.eval(elt, sub))
         return ListVal(out)
+    if isinstance(it, MaskIdx) and not g.ifs and isinstance(g.target, ast.Name):
+        # [f(k) for k in np.flatnonzero(mask)]  ==  [f(k) for k in range(len(mask)) if mask[k]]
+        M = as_arr(it.mask)
+        if M is None or M.ndim != 1: return Opaque("flatnonzero of a non-1-D mask")
+        var = fresh("it"); count = M.axes[0][1]
+        sub = st.clone(); sub.ranges[var] = (X.const(0), count)
+        interp.assign(g.target, X.var(var), sub)
+        r = ListVal(); r.per_iter = [Opaque("filtered comprehension")]
+        r.filter = (var, count, [arr_index(M, X.var(var))], interp.eval(elt, sub))
+        return r
     gen = iter_symbolic(interp, it, st)
     if gen is None: return Opaque("comprehension over " + type(it).__name__)
     var, count, value = gen
